@@ -230,7 +230,10 @@ def run_exec_contract(contract, env, call, universe=None, extra_helpers=None):
         except Exception as e:
             return None
     ens = {}
-    for lab, item in (contract.get('ensures') or {}).items():
+    # `exec_ensures`: clauses of the statement that no obligation is generated for (beyond the solver); they are only
+    # evaluated here, on the function's bounded domain (labelled bounded in the evidence, never counted as proved)
+    for lab, item in list((contract.get('ensures') or {}).items()) + \
+            [('bounded:' + k, v) for k, v in (contract.get('exec_ensures') or {}).items()]:
         src = item[1] if isinstance(item, tuple) else item
         try:
             c = ExecClause(src)
